@@ -118,7 +118,7 @@ def main():
     nt = sum(v[1] for v in fam.values())
     return rep.finish({'evaluations': ev, 'distinct_nontrivial': nt,
                        'rule': 'accept: ALL strings of length <= %d over "019+-.eE()x" against an independent recogniser (non-trivial = accepted strings); '
-                               'grid: all mantissas of <= %d digits with the decimal point at every position x every exponent in [-330,310] against strtod; '
+                               'grid: all mantissas of <= %d digits with the decimal point at every position x every exponent in [-330,310] against strtod; exponent-spelling: 5 mantissas x every exponent in [-330,310] x e / E x plus sign written or not x zero padding of 0..40 digits; '
                                'long-digits: digit strings of 600..2048 characters (all nines, ones, fives, 49-repeats; integer, fraction, mixed and with uncertainty) at 17 magnitudes from 1e-320 to 1e308, in the ASan/UBSan build, against CPython float(); ties: for every binade (quick: a thinned set) and 7 mantissa patterns the exact value, the exact tie with its successor, tie +-1 ulp of the last decimal digit, '
                                '17/19-digit spellings, 10^(9k) boundaries; format: init_numb/autoinit_numb over classic decimals, binade boundaries and exact decimal ties x scales x su x leading-zero limits x su rules, '
                                'oracle = exact decimal expansion (printf %%.1100f) rounded half-even by string arithmetic' % ((8 if tier == 'thorough' else 6), (5 if tier == 'thorough' else 3)),
